@@ -12,9 +12,9 @@ type headerScanner struct {
 	b []byte
 	r int
 
-	// blockEnd is the end of the header block in b when the caller has
-	// already found it (see readRawHeaders), 0 otherwise. next only trusts
-	// it if the block really ends in CRLFCRLF there.
+	// blockEnd is the end of the header block in b (just past its first
+	// blank line) when the caller has already found it (see
+	// readRawHeaders), 0 otherwise.
 	blockEnd int
 
 	key   []byte
@@ -34,11 +34,18 @@ func (s *headerScanner) next() bool {
 			return false
 		}
 
-		if s.blockEnd >= 4 && s.blockEnd <= len(s.b) &&
-			bytes.Equal(s.b[s.blockEnd-4:s.blockEnd], strCRLFCRLF) {
-			// The caller already found the end of the block, no need to
-			// search for it again. The first CRLFCRLF can only sit at
-			// blockEnd-4 since readRawHeaders stops at the first blank line.
+		if s.blockEnd > 0 {
+			// The caller already found the first blank line (readRawHeaders /
+			// rawHeadersEnd). Never look past it: what follows belongs to the
+			// body or to the next message and must not decide how this block
+			// is parsed. A block is only complete when that blank line is a
+			// CRLF; one made of a bare LF does not terminate the block, however
+			// many bytes follow it.
+			if s.blockEnd < 2 || s.blockEnd > len(s.b) ||
+				s.b[s.blockEnd-2] != rChar || s.b[s.blockEnd-1] != nChar {
+				s.err = ErrNeedMore
+				return false
+			}
 			s.b = s.b[:s.blockEnd]
 		} else {
 			i := bytes.Index(s.b, strCRLFCRLF)
